@@ -233,6 +233,33 @@ CHECKS = {
         'Real install/test only on --backend=none projects; run and alias targets and install scripts, symlinks and empty directories '
         'are outside the relation. TraceIntro reports every violated clause, so a known finding cannot mask another.',
         'DESIGN.md section 5, C15 and section 10'),
+    'C07': (
+        'TLC: OptionStore (API-shaped machine mirroring add_*_option / initialize_from_top_level_project_call / '
+        'initialize_from_subproject_call / set_option / set_from_configure_command) refines the declarative OptionPrecedence rule book '
+        '(4 top-level / 8 subproject levels, yielding, buildtype, prefix defaults, per-kind validation) for all source subsets x kinds '
+        'x classes; every case replayed on the real OptionStore and a stratified sample through `meson setup`; random API sequences '
+        'judged by TraceOptionStore.tla',
+        'TLC proves that the API-shaped option-store machine refines the declarative precedence rule book for all 2^4/2^8 source '
+        'subsets x kinds x classes (28k cases, 197k states thorough; seed-rotated families quick); every case is replayed in-process on '
+        'the real OptionStore (including the real parse_cmd_line_options), cases are merged ~13 per generated project and run through '
+        'the real CLI (top-level + subproject + native/cross file + -D flags, message() lines and introspect --buildoptions), and '
+        'seeded random API call sequences incl. invalid values are judged after every call.',
+        'Verdicts are computed only by TLC; Python renders and projects. Known findings: buildtype clobbering explicit debug/'
+        'optimization (three mechanisms). Compiler-like options are played by c_* options in-process only.',
+        'DESIGN.md section 5, C07 and section 10'),
+    'C08': (
+        'TLC: OptionLifecycle (Setup, Configure -D, ConfigureU, Reconfigure, Wipe, option-file edits, failing variants) with the '
+        'history laws (last given else creation default, wipe = fresh setup with what the user gave, failed step = no-op ...) on every '
+        'history <= 4 events; every 3-event history plus simulated longer ones replayed with the real CLI in real processes and judged '
+        'after every step by TraceOptionLifecycle.tla',
+        'TLC checks the declarative history laws on every history up to the bound (1.2M states thorough, 30k quick); histories exported '
+        'by TLC are replayed with real `meson setup / configure -D / -U / --reconfigure / --wipe`, edits of meson.options and injected '
+        'failures on one build directory; after every command introspect --buildoptions, the effective subproject values (read back '
+        'from coredata.dat with the tree\'s own loader) and get_option() messages are projected and TLC keeps the set of machine states '
+        'consistent with the observations.',
+        'Verdicts by TLC only. The quick tier samples histories by the model\'s situation tags so every law is exercised. Known '
+        'findings recorded with circumstance taints (eq-subdl, own-sp, parent-replaced, stale-x).',
+        'DESIGN.md section 5, C08 and section 10'),
 }
 
 NOT_YET = {}
